@@ -3,5 +3,5 @@ CONSTANTS
   Thorough = FALSE
   CutAll = 170
   BigLimit = 400
-INVARIANT Emit
+INVARIANTS GenSane Emit
 CHECK_DEADLOCK FALSE
